@@ -127,11 +127,17 @@ def run_impl(case):
         wsym = sympy.Symbol("w")
         subsd[wsym] = float(C.num(G.unjraw(inner["calls"][0]["P"])[sp][1]))
     try:
-        Hs = build(fam, inner, syms, None if sp is None else (sp, wsym))
         Hn = build(fam, inner, [C.num(c)] * n)
         wn = last_warn()
     except (KeyError, ValueError, TypeError) as ex:
         return {"error": type(ex).__name__, "checks": []}
+    try:
+        Hs = build(fam, inner, syms, None if sp is None else (sp, wsym))
+    except (KeyError, ValueError, TypeError) as ex:
+        # the numeric build went through: the same calls with a symbol as weight must go through too
+        return {"error": "symbolic:" + type(ex).__name__,
+                "checks": ["the build with a symbolic weight raised %s: %s -- the same calls with the number %s succeed"
+                           % (type(ex).__name__, ex, c)]}
     snap = (dict(Hs), getattr(Hs, "_constraints", None) and {k: [dict(p) for p in v] for k, v in Hs._constraints.items()},
             getattr(Hs, "_ancilla", None))
     Hsub = Hs.subs(subsd)
